@@ -29,6 +29,7 @@ import (
 	"verif/sim/wl/prodcons"
 	"verif/sim/wl/rwmap"
 	"verif/sim/wl/selmix"
+	"verif/sim/wl/shapes"
 	"verif/sim/wl/ticker"
 	"verif/sim/wl/tree"
 )
@@ -61,6 +62,7 @@ var templates = []Template{
 	{"ifacewrap", ifacewrap.Src, ifacewrap.Run, []int{2, 2}},
 	{"condq", condq.Src, condq.Run, []int{2, 2, 2}},
 	{"funcs", funcs.Src, funcs.Run, []int{2, 2}},
+	{"shapes", shapes.Src, shapes.Run, []int{2, 3}},
 }
 
 var (
